@@ -170,7 +170,9 @@ func vkinds() []vkind {
 			}},
 		{"VJWTAssertion", scJWTRequest,
 			func(tok string) error { _, err := oidc.ParseToken(tok, new(oidc.JWTTokenRequest)); return err },
-			func(f *opfix.Fixture, tok string) { op.VerifyJWTAssertion(ctx, tok, f.Provider.JWTProfileVerifier(ctx)) }},
+			func(f *opfix.Fixture, tok string) {
+				op.VerifyJWTAssertion(ctx, tok, f.Provider.JWTProfileVerifier(ctx))
+			}},
 		{"VRequestObject", scRequestObject,
 			func(tok string) error { _, err := oidc.ParseToken(tok, new(oidc.RequestObject)); return err },
 			func(f *opfix.Fixture, tok string) {
@@ -282,6 +284,14 @@ func verifyCases(w *emit.Writer, g *gen, f *opfix.Fixture, n int) {
 			_, err := b64.DecodeString(strings.Split(tok, ".")[1])
 			b64ok = err == nil
 		}
+		if segs == 3 && b64ok {
+			if actual, _ := b64.DecodeString(strings.Split(tok, ".")[1]); string(actual) != string(payload) {
+				if json.Valid(actual) {
+					continue
+				}
+				valid, payload = false, actual
+			}
+		}
 		var perr error
 		pp := drv.Catch(func() { perr = vk.parse(tok) })
 		pv := drv.Catch(func() { vk.call(f, tok) })
@@ -355,7 +365,7 @@ func main() {
 	userCodeCases(w, g, max(8, total/100))
 
 	err = w.Close(emit.Meta{Property: "C09", Tier: cfg.Tier, Seed: cfg.Seed,
-		Rule: "seeded structured fuzz, no coverage guidance. decode: JSON ASTs (well-typed members + wrong-typed / null / huge / nested / duplicate members, invalid UTF-8) serialised by the harness and fed to json.Unmarshal of each library type; verify: JWTs (provider-signed, foreign, none, garbage) around those payloads plus null / scalar / array / truncated payloads, wrong segment counts, bad base64, on the six verifier entry points; handler: request shapes (entry x endpoint/grant x form ok x Basic header kind x main parameter x client_id) on Provider router, LegacyServer router and directly called grant handlers; route: flow-first requests (live code / tokens / device codes of a real flow) with mutations on every route x method x header x body of both routers; client: provider answers (status x body AST / truncated) through a stub RoundTripper into the client helpers. Non-trivial = model path class != 0 (not: null document, wrong segment count, missing grant_type); distinct = distinct input term.",
+		Rule:  "seeded structured fuzz, no coverage guidance. decode: JSON ASTs (well-typed members + wrong-typed / null / huge / nested / duplicate members, invalid UTF-8) serialised by the harness and fed to json.Unmarshal of each library type; verify: JWTs (provider-signed, foreign, none, garbage) around those payloads plus null / scalar / array / truncated payloads, wrong segment counts, bad base64, on the six verifier entry points; handler: request shapes (entry x endpoint/grant x form ok x Basic header kind x main parameter x client_id) on Provider router, LegacyServer router and directly called grant handlers; route: flow-first requests (live code / tokens / device codes of a real flow) with mutations on every route x method x header x body of both routers; client: provider answers (status x body AST / truncated) through a stub RoundTripper into the client helpers. Non-trivial = model path class != 0 (not: null document, wrong segment count, missing grant_type); distinct = distinct input term.",
 		Extra: map[string]any{"router_fixture": "opfix.NewStd, all capabilities"},
 	})
 	if err != nil {
